@@ -44,6 +44,12 @@ class World:
             c.unique = (rep[0].fields.get('destination') if rep else None) or c.proto.uniqueName
         else:
             c = self.net.raw_client()
+        if cid % 2 == 0:
+            # like every real client, some hold match rules: what the bus does with them when the client goes must not get
+            # in the way of cleaning up its names
+            c.call('AddMatch', 's', ["type='signal',interface='org.verif.Whatever'"])
+            c.call('AddMatch', 's', ["type='signal',member='NameOwnerChanged'"])
+            c.take()
         self.clients[cid] = c
         self.alive.add(cid)
         return cid
